@@ -192,13 +192,17 @@ func (r *Renderer) Value(v thriftspec.Value) error {
 	case thriftspec.List, thriftspec.Set:
 		off := r.Buf.Len()
 		var err error
+		et := LibType(v.ET)
+		if v.ET1 && v.ET == thriftspec.Bool && feat&thrift.CoalesceBoolFields != 0 {
+			et = thrift.TRUE // BOOL announced as 1 (compact; readers must accept 1 and 2)
+		}
 		if v.T == thriftspec.List {
-			r.trace("WriteList(%s,%d)", v.ET, len(v.Elems))
-			err = w.WriteList(thrift.List{Size: int32(len(v.Elems)), Type: LibType(v.ET)})
+			r.trace("WriteList(%s,%d)", et, len(v.Elems))
+			err = w.WriteList(thrift.List{Size: int32(len(v.Elems)), Type: et})
 			r.mark("list", off, len(v.Elems))
 		} else {
-			r.trace("WriteSet(%s,%d)", v.ET, len(v.Elems))
-			err = w.WriteSet(thrift.Set{Size: int32(len(v.Elems)), Type: LibType(v.ET)})
+			r.trace("WriteSet(%s,%d)", et, len(v.Elems))
+			err = w.WriteSet(thrift.Set{Size: int32(len(v.Elems)), Type: et})
 			r.mark("set", off, len(v.Elems))
 		}
 		if err != nil {
@@ -219,6 +223,14 @@ func (r *Renderer) Value(v thriftspec.Value) error {
 		}
 		if v.ET != thriftspec.Stop {
 			m.Value = LibType(v.ET)
+		}
+		if feat&thrift.CoalesceBoolFields != 0 {
+			if v.KT1 && v.KT == thriftspec.Bool {
+				m.Key = thrift.TRUE
+			}
+			if v.ET1 && v.ET == thriftspec.Bool {
+				m.Value = thrift.TRUE
+			}
 		}
 		if err := w.WriteMap(m); err != nil {
 			return err
